@@ -522,6 +522,7 @@ def run(ctx):
     check_modal_repetition(ctx, db)
     from . import C02   # UUUU = 15 is the standard's escape for an explicit value count: writer and reader agree on it for counts 0..40
     C02.check_property(ctx, db)
+    C02.check_ctrapezoid_tables(ctx, db)   # the 16 trapezoid types: writer classification inverse to the reader construction
     from .. import fresh   # S_PATH_MAX_VERTICES: one element's centre line at a time
     nf = fresh.check_function(ctx, db.fn('gdstk::Library::write_oas'))
     ctx.require('R-FRESH scratch arrays in write_oas', nf, 2)
